@@ -1009,3 +1009,48 @@ func VfH_C01_malformed_gsub() {
 	c.applyString(proxyGSUB, &accel)
 	vfReach("end")
 }
+
+// H-C01-markfilter: a lookup that asks for a mark filtering set the font's GDEF does not have (here: no GDEF
+// at all), applied over a buffer holding a mark: the real loader, the real skipping iterator.
+func VfH_C01_markfilter() {
+	set := uint16(vfChoice("markFilteringSet", 3))
+	pair := []uint16{2, 24, 0x0004, 0, 30, 40, 2, 2, 0, 0, 0, vfNeg(-50)}
+	pair = append(pair, vfCov(1)...)
+	pair = append(pair, 2, 1, 1, 1, 1)
+	pair = append(pair, 2, 1, 2, 2, 1)
+	gpos := []uint16{1, 0, 10, 12, 14, 0, 0, 1, 4,
+		2, 0x0010, 1, 10, set} // lookup: pair positioning, UseMarkFilteringSet, one subtable at +10, the set index
+	gpos = append(gpos, pair...)
+	cmap := []uint16{0, 1, 3, 1, 0, 12, 4, 24, 0, 2, 2, 0, 0, 0xFFFF, 0, 0xFFFF, 1, 0}
+	head := make([]byte, 54)
+	head[18], head[19] = 0x03, 0xE8
+	file := ot.WriteTTF([]ot.Table{
+		{Tag: ot.MustNewTag("GPOS"), Content: vfWords(gpos...)},
+		{Tag: ot.MustNewTag("cmap"), Content: vfWords(cmap...)},
+		{Tag: ot.MustNewTag("head"), Content: head},
+		{Tag: ot.MustNewTag("maxp"), Content: []byte{0, 0, 0x50, 0, 0, 8}},
+	})
+	ld, err := ot.NewLoader(bytes.NewReader(file))
+	if err != nil {
+		panic("harness: font file does not load")
+	}
+	ft, err := font.NewFont(ld)
+	if err != nil {
+		panic("harness: minimal font rejected")
+	}
+	vfCover("loaded", len(ft.GPOS.Lookups) == 1)
+	if len(ft.GPOS.Lookups) == 0 {
+		vfReach("end")
+		return
+	}
+	glyphs := []vfStepGlyph{{gid: 1, props: tables.GPBaseGlyph}, {gid: 3, props: tables.GPMark, cluster: 1}, {gid: 2, props: tables.GPBaseGlyph, cluster: 2}}
+	buf := vfStringBuffer(glyphs, LeftToRight)
+	var c otApplyContext
+	c.reset(1, NewFont(font.NewFace(ft)), buf)
+	c.recurseFunc = proxyGPOS.recurseFunc
+	c.setLookupMask(vfLookupMask)
+	var accel otLayoutLookupAccelerator
+	accel.init(lookupGPOS(ft.GPOS.Lookups[0]))
+	c.applyString(proxyGPOS, &accel)
+	vfReach("end")
+}
